@@ -684,6 +684,9 @@ pub fn differential_variants(tcp: bool, steps: &[Step]) -> Vec<(String, bool, St
         let steps = st;
         let reference = refc;
         let mut out = Vec::new();
+        // (whatever the library asks the process environment for on this thread is recorded)
+        let _ambient = crate::ambient::scope();
+        crate::ambient::record(true);
         for d in SHIFTS_MS.iter().rev() {
             let shifted = observe(tcp, &steps, base + Duration::from_millis(*d));
             out.push((format!("time base shifted by {d} ms"), shifted == reference, first_diff(&reference, &shifted)));
@@ -710,6 +713,24 @@ pub fn differential_variants(tcp: bool, steps: &[Step]) -> Vec<(String, bool, St
             let d = sink_dispatch(level);
             let logged = tracing::dispatcher::with_default(&d, || observe(tcp, &steps, base));
             out.push((format!("replayed under a {name} tracing subscriber"), logged == reference, first_diff(&reference, &logged)));
+        }
+        // the process clock (the harness' own clock_gettime) jumping at every read made on this thread:
+        // two reads inside one history are 7 s / 50 days apart
+        for secs in [7u64, 4_320_000] {
+            let _g = crate::ambient::scope();
+            crate::ambient::clock_step(Duration::from_secs(secs));
+            let o = observe(tcp, &steps, base);
+            out.push((format!("replayed with the process clock jumping {secs} s at every read"), o == reference, first_diff(&reference, &o)));
+        }
+        // every environment variable the library was seen to read (on any thread, so far), under every
+        // value of a small alphabet and unset (the harness' own getenv answers on this thread)
+        for name in crate::ambient::env_names() {
+            for value in crate::ambient::ENV_VALUES.iter().map(|v| Some(*v)).chain([None]) {
+                let _g = crate::ambient::scope();
+                crate::ambient::env_override(&name, value);
+                let o = observe(tcp, &steps, base);
+                out.push((format!("replayed with the environment variable {name} reading as {value:?}"), o == reference, first_diff(&reference, &o)));
+            }
         }
         // time bases around the real clock: "now" and an hour ago (an ambient clock read used as a
         // fallback or clamp shows here, BASE being 100 000 s in the future)
@@ -760,6 +781,10 @@ fn clause_of(name: &str) -> String {
         "wall-clock-base".to_string()
     } else if name.contains("tracing subscriber") {
         "tracing-subscriber".to_string()
+    } else if name.contains("process clock") {
+        "process-clock".to_string()
+    } else if name.contains("environment variable") {
+        "process-environment".to_string()
     } else {
         name.replace(' ', "-")
     }
@@ -831,7 +856,7 @@ fn differential(s: &Node, acc: &mut Acc) {
             });
         }
     }
-    acc.outcome("history replayed under 8-10 variants");
+    acc.outcome("history replayed under 10-12 variants");
 }
 
 pub fn replay(prop: &str, rp: &Value) -> Vec<Violation> {
